@@ -30,11 +30,16 @@ def oraclize(qf: QlassF, element: Any, name="oracle"):
     """Transform a QlassF qf and an element to an oracle {f(x) = x == element}"""
     argt_name = type_repr(qf.args[0].ttype)
 
-    if qf.name == name:
-        qf.name = f"_{name}"
+    # The callee keeps its name; only the copy handed to the oracle is renamed when
+    # it clashes with the oracle's own name
+    logic_fun = qf.to_logicfun()
+    fname = qf.name
+    if fname == name:
+        fname = f"_{name}"
+        logic_fun = (fname,) + tuple(logic_fun[1:])
 
-    fs = f"def {name}(v: {argt_name}) -> bool:\n   return {qf.name}(v) == {element}"
-    oracle = QlassF.from_function(fs, defs=[qf.to_logicfun()])
+    fs = f"def {name}(v: {argt_name}) -> bool:\n   return {fname}(v) == {element}"
+    oracle = QlassF.from_function(fs, defs=[logic_fun])
 
     if (
         len(oracle.expressions) == 1
